@@ -244,6 +244,9 @@ def intern_matrix(w, A, want_inverse):
         return inv, logdet.fresh_copy()
     # generic: intern by canonical form
     occurring = [v for v in batch_comps if any(v is u for u in K._free_ivs_of_canon(p))]
+    # index variables that are external to the array's axes (vmap rows) are batch parameters of the family as well
+    occurring = occurring + [v for v in K._free_ivs_of_canon(p)
+                             if not any(v is u for u in batch_comps) and v is not row and v is not col]
     order = occurring + [row, col]
     m = {v: ("H", k) for k, v in enumerate(order)}
     form, _ = K._poly_form(p, m)
